@@ -84,7 +84,13 @@ func LoadRules(rules []*Rule) (bool, error) {
 	}
 	// keep a copy of the list: the caller may go on using its slice (replace an element and load it
 	// again), and a slice compared with itself always looks unchanged
-	currentRules = append([]*Rule(nil), rules...)
+	// (an empty list stays an empty list and nil stays nil: DeepEqual tells the two apart, and an
+	// empty list loaded twice would otherwise never look unchanged)
+	if rules == nil {
+		currentRules = nil
+	} else {
+		currentRules = append(make([]*Rule, 0, len(rules)), rules...)
+	}
 	return true, nil
 }
 
